@@ -105,24 +105,23 @@ Definition sarif_col (col : nat) : nat := col + snd sarif_region.
 (* A construct as the renderer records it.  (k_hrow, k_hcol): 0-based row / column of the token the
    property names (the `def` / `function` / `fn` / `class` / `struct` keyword line, the literal, the
    method name of a call, the first line of a duplicated block, the line of a temporal phrase).
-   (k_nrow, k_ncol): where the parser's node starts (differs when the node starts earlier: a
-   decorator, the receiver of a method chain, the header text of a file).  k_key identifies the
+   (k_nrow, k_ncol): where the parser's node starts (differs when the node starts earlier: the receiver
+   of a method chain, the header text of a file; a decorator in front of a TypeScript class - repaired in
+   147bf8d: SRP now reports the `class` keyword child, so no builder works from that node start any more).  k_key identifies the
    construct in messages (function / class name, spelled value, ...). *)
 Record construct := { k_builder : string; k_key : string; k_hrow : nat; k_hcol : nat; k_nrow : nat; k_ncol : nat }.
 
 (* true = what the code does, false = what the property demands *)
 Record lquirks := {
   q_rs_chain_start         : bool;  (* unwrap / clone: a method call is reported where its receiver chain starts *)
-  q_ts_decorator_start     : bool;  (* SRP TypeScript: a decorated class is reported at its first decorator *)
   q_ts_console_chain_start : bool;  (* console.<m>() is reported where `console` stands, not where `.<m>(` is *)
   q_fh_header_relative     : bool;  (* file-header: temporal language is numbered inside the header text, not in the file *)
   q_col_const_unclamped    : bool;  (* builders with a constant column report it even on a shorter (empty) line *)
 }.
-Definition loc_ideal : lquirks := Build_lquirks false false false false false.
+Definition loc_ideal : lquirks := Build_lquirks false false false false.
 
 Definition use_node (q : lquirks) (b : string) : bool :=
   if String.eqb b "unwrap" || String.eqb b "clone" then q_rs_chain_start q
-  else if String.eqb b "srp.ts" then q_ts_decorator_start q
   else if String.eqb b "print.ts" then q_ts_console_chain_start q
   else if String.eqb b "file-header.atemporal" then q_fh_header_relative q
   else false.
